@@ -201,6 +201,11 @@ class AsyncDecoratorBinder(qcore.decorators.DecoratorBinder):
             return self.decorator.asyncio(self.instance, *args, **kwargs)
 
 
+def _source_file(fn):
+    # fn may itself be a decorator object (deduplicate() over an @asynq() function, say)
+    return inspect.getsourcefile(core_inspection.get_original_fn(fn))
+
+
 class AsyncDecorator(PureAsyncDecorator):
     binder_cls = AsyncDecoratorBinder
 
@@ -220,11 +225,11 @@ class AsyncDecorator(PureAsyncDecorator):
         if is_asyncio_mode():
             if self.allow_sync_call:
                 logger.warning(
-                    f"asyncio mode does not support synchronous calls: {self.fn.__name__} at {inspect.getsourcefile(self.fn)}"
+                    f"asyncio mode does not support synchronous calls: {self.fn.__name__} at {_source_file(self.fn)}"
                 )
             else:
                 raise RuntimeError(
-                    f"asyncio mode does not support synchronous calls: {self.fn.__name__} at {inspect.getsourcefile(self.fn)}"
+                    f"asyncio mode does not support synchronous calls: {self.fn.__name__} at {_source_file(self.fn)}"
                 )
         else:
             return self._call_pure(args, kwargs).value()
@@ -251,11 +256,11 @@ class AsyncAndSyncPairDecorator(AsyncDecorator):
         if is_asyncio_mode():
             if self.allow_sync_call:
                 logger.warning(
-                    f"asyncio mode does not support synchronous calls: {self.fn.__name__} at {inspect.getsourcefile(self.fn)}"
+                    f"asyncio mode does not support synchronous calls: {self.fn.__name__} at {_source_file(self.fn)}"
                 )
             else:
                 raise RuntimeError(
-                    f"asyncio mode does not support synchronous calls: {self.fn.__name__} at {inspect.getsourcefile(self.fn)}"
+                    f"asyncio mode does not support synchronous calls: {self.fn.__name__} at {_source_file(self.fn)}"
                 )
         else:
             return self.sync_fn(*args, **kwargs)
